@@ -1,5 +1,123 @@
-"""Thorough tier: apply the property's self-test mutants to a scratch copy and require the rules to fire (placeholder)."""
+"""Thorough tier: validate the rules of one property against the self-test corpus.
+
+Every mutant (selftest/mutants.py: text replacements; seeded/<id>/patch.diff: patches written by independent sub-agents) is
+applied to a scratch copy of /repo's sources outside /repo and /verif, facts are re-extracted (the warm target directory is
+shared, so only the touched crate is re-checked), the property's rules are evaluated on those facts, and the mutant counts
+as detected when a violation appears that the unchanged tree does not have and that comes from the expected rule.
+This validates the analyser; the verdict about /repo never depends on it.  A mutant whose anchor text is gone is `skipped`,
+one that does not compile is `invalid`.
+"""
+import importlib
+import importlib.util
+import json
+import os
+import shutil
+import subprocess
+import sys
+import time
+
+from . import facts
+from .ir import Program, AnchorMissing
+from .report import Report, load_known
+from .trace import TooComplex
+
+VERIF = facts.VERIF
+
+
+def load_corpus(prop):
+    spec = importlib.util.spec_from_file_location('wb_mutants', os.path.join(VERIF, 'selftest', 'mutants.py'))
+    mod = importlib.util.module_from_spec(spec)
+    spec.loader.exec_module(mod)
+    out = [dict(x, kind='replace') for x in mod.M if x['property'] == prop]
+    sd = os.path.join(VERIF, 'seeded')
+    if os.path.isdir(sd):
+        for d in sorted(os.listdir(sd)):
+            mp = os.path.join(sd, d, 'meta.json')
+            pp = os.path.join(sd, d, 'patch.diff')
+            if os.path.exists(mp) and os.path.exists(pp):
+                meta = json.load(open(mp))
+                if meta.get('property') == prop and meta.get('confirmed'):
+                    out.append({'id': d, 'property': prop, 'kind': 'patch', 'patch': pp, 'rule': prop + '.'})
+    return out
+
+
+def violations_of(prop, root):
+    d = facts.ensure_facts(root, quiet=True)
+    prog = Program(d)
+    rep = Report(prop, 'thorough')
+    mod = importlib.import_module(f'wbcheck.rules.{prop.lower()}')
+    for name, fn in mod.RULES:
+        try:
+            fn(prog, rep)
+        except AnchorMissing as e:
+            rep.anchor_missing(name, e)
+        except TooComplex as e:
+            rep.anchor_missing(name, f'unrecognised-shape: {e}')
+    return {o['key']: o for o in rep.obligations if o['verdict'] == 'violation'}
 
 
 def run(prop, rep):
-    rep.mutants = {'applied': 0, 'detected': 0, 'note': 'self-test corpus not wired for this property yet'}
+    corpus = load_corpus(prop)
+    res = {'applied': 0, 'detected': 0, 'missed': [], 'skipped': [], 'invalid': [], 'details': []}
+    rep.mutants = res
+    if not corpus:
+        return
+    scratch_base = os.environ.get('VERIF_SCRATCH', f'/var/tmp/wbverif.{os.getpid()}')
+    src = os.path.join(scratch_base, 'src')
+    shutil.rmtree(scratch_base, ignore_errors=True)
+    os.makedirs(src)
+    try:
+        subprocess.check_call(['rsync', '-a', '--exclude', 'target', '--exclude', '.git', facts.REPO + '/', src + '/'])
+        base = violations_of(prop, src)
+        for mu in corpus:
+            t0 = time.time()
+            touched = []
+            try:
+                if mu['kind'] == 'replace':
+                    p = os.path.join(src, mu['file'])
+                    text = open(p).read()
+                    if text.count(mu['old']) != 1:
+                        res['skipped'].append(mu['id'])
+                        continue
+                    touched.append((p, text))
+                    open(p, 'w').write(text.replace(mu['old'], mu['new']))
+                else:
+                    # remember the files the patch touches
+                    files = [l[6:].strip() for l in open(mu['patch']) if l.startswith('+++ b/')]
+                    for f_ in files:
+                        p = os.path.join(src, f_)
+                        touched.append((p, open(p).read() if os.path.exists(p) else None))
+                    r = subprocess.run(['patch', '-p1', '-s', '--no-backup-if-mismatch', '-i', mu['patch']], cwd=src,
+                                       stdout=subprocess.PIPE, stderr=subprocess.STDOUT, text=True)
+                    if r.returncode != 0:
+                        res['skipped'].append(mu['id'])
+                        continue
+                try:
+                    got = violations_of(prop, src)
+                except facts.ExtractionError:
+                    res['invalid'].append(mu['id'])
+                    continue
+                new = {k: o for k, o in got.items() if k not in base}
+                res['applied'] += 1
+                hit = [o for o in new.values() if o['rule'].startswith(mu['rule'])]
+                entry = {'id': mu['id'], 'expected_rule': mu['rule'], 'fired': sorted({o['rule'] for o in new.values()}),
+                         'instances': sorted({o['instance'] for o in new.values()})[:4], 'wall_s': round(time.time() - t0, 1)}
+                if hit:
+                    res['detected'] += 1
+                    entry['verdict'] = 'detected'
+                else:
+                    res['missed'].append(mu['id'])
+                    entry['verdict'] = 'MISSED' if not new else 'fired-elsewhere'
+                res['details'].append(entry)
+                print(f"  selftest {mu['id']}: {entry['verdict']} {entry['fired']}", file=sys.stderr)
+            finally:
+                for p, text in touched:
+                    if text is None:
+                        if os.path.exists(p):
+                            os.remove(p)
+                    else:
+                        open(p, 'w').write(text)
+    finally:
+        shutil.rmtree(scratch_base, ignore_errors=True)
+    if res['missed']:
+        print(f"SELFTEST-MISS property={prop} mutants={','.join(res['missed'])} (validation of the analyser; the verdict on /repo is not affected)")
